@@ -1,7 +1,8 @@
 ---------------------------- MODULE XlAggregates ----------------------------
 (* C11: aggregates fold exactly the numeric cells of their arguments.               *)
 (* A block of cells (Cols columns, row-major index) holds content kinds:             *)
-(*   "I" integer  "D" decimal  "N" negative  "X" text  "S" numeric-looking text      *)
+(*   "I" integer  "D" decimal  "N" negative  "Z" zero (a number like any other)       *)
+(*   "X" text  "S" numeric-looking text                                              *)
 (*   "T" TRUE  "F" FALSE  "B" blank  "E" empty text  "H" a text that starts with #   *)
 (*   (an order number like #41: a text, not an error value)                           *)
 (* Numeric values are position dependent (so that every cell is distinguishable) and *)
@@ -11,11 +12,11 @@
 EXTENDS Integers, Sequences, FiniteSets, TLC
 CONSTANT Cols
 
-Numeric == {"I", "D", "N"}
+Numeric == {"I", "D", "N", "Z"}
 Ints == <<2, 3, 5, 7, 11, 13, 17, 19, 23, 29, 31, 37>>
 Decs4 == <<2, 5, 11, 18, 25, 34, 41, 50, 61, 70, 83, 94>>       \* 0.5, 1.25, 2.75, 4.5 ...
 Negs == <<1, 4, 6, 9, 10, 12, 14, 15, 16, 18, 20, 21>>
-Q4(i, kind) == CASE kind = "I" -> 4 * Ints[i] [] kind = "D" -> Decs4[i] [] kind = "N" -> -4 * Negs[i]
+Q4(i, kind) == CASE kind = "I" -> 4 * Ints[i] [] kind = "D" -> Decs4[i] [] kind = "N" -> -4 * Negs[i] [] kind = "Z" -> 0
 Idx(r, c) == (r - 1) * Cols + c
 \* cells of an area in row-major order
 AreaCells(a) == LET w == a[4] - a[2] + 1 n == (a[3] - a[1] + 1) * w IN
